@@ -95,6 +95,10 @@ type Template struct {
 type Value struct {
 	U uint64 `json:"u,omitempty"`
 	B []byte `json:"b,omitempty"`
+	// Long (variable-length fields, encoder side of the collector checks only): the value is
+	// written with the three-byte length prefix even if it is shorter than 255 bytes, which RFC 7011
+	// section 7 allows (exporters with a fixed-size prefix do that)
+	Long bool `json:"long,omitempty"`
 }
 
 // MinRecLen is the minimum number of bytes a data record of this template occupies.
@@ -121,7 +125,7 @@ func EncodeValue(dst []byte, f Field, v Value) []byte {
 	case TOctets, TString:
 		if f.Len == VarLen {
 			n := len(v.B)
-			if n < 255 {
+			if n < 255 && !v.Long {
 				dst = append(dst, byte(n))
 			} else {
 				dst = append(dst, 0xFF, byte(n>>8), byte(n))
@@ -143,7 +147,7 @@ func EncodedLen(f Field, v Value) int {
 	switch f.Type {
 	case TOctets, TString:
 		if f.Len == VarLen {
-			if len(v.B) < 255 {
+			if len(v.B) < 255 && !v.Long {
 				return len(v.B) + 1
 			}
 			return len(v.B) + 3
